@@ -19,6 +19,7 @@
  *   --scenarios "D1,D2,..."   --bound <k>   --io 0|1   --spurious 0|1   --prop C08|C09|C10|C04
  */
 #define _GNU_SOURCE
+#include <errno.h>
 #include <stdlib.h>
 #include <string.h>
 #include "kv.h"
@@ -108,6 +109,14 @@ static uint64_t n_crash_images, n_crash_recoveries, n_crash_points, n_exec_switc
 static vh_set_t crash_seen;
 static sch_point_t *main_trace;
 static int main_trace_len, main_trace_cap;
+/* --faults "fsync:MANIFEST,write:MANIFEST,..." x --fault-ords N: every explored schedule is also run with ONE injected
+ * failure: the n-th call of that kind on a file whose name contains the pattern, counted from the moment the
+ * threads start (a site name that does not depend on the schedule).  Oracle (C12): no hang; after the fault has
+ * cleared, kill + reopen and close + reopen succeed and contain every batch whose write returned OK. */
+static int fault_kind, fault_ord;
+static char fault_name[16];
+static int fault_j_join;        /* journal length when the foreground threads had joined */
+static uint64_t n_fault_fired, n_fault_runs;
 static int crash_nodedup;   /* replays must re-judge images already seen */
 
 /* per-execution records (each thread writes only its own slot range) */
@@ -198,7 +207,7 @@ do_scan(int t, ldb_iter_t *it, int *vids, int *status) {
         vids[k] = read_vid(&val, t);
         found = 1;
       }
-    if (!found && !(do_crash && key.size == 3 && ((const char *)key.data)[0] == 'm')) vids[0] = -3; /* alien key */
+    if (!found && !((do_crash || fault_kind) && key.size == 3 && ((const char *)key.data)[0] == 'm')) vids[0] = -3; /* alien key */
   }
   *status = ldb_iter_status(it);
 }
@@ -219,7 +228,7 @@ thread_body(void *arg) {
         ldb_writeopt_t wo = *ldb_writeopt_default;
         wo.sync = o->w.sync;
         ldb_batch_init(&b);
-        if (do_crash) {
+        if (do_crash || fault_kind) {
           /* marker key of this batch: m<thread><op> */
           char mk[4];
           ldb_slice_t key, val;
@@ -353,11 +362,19 @@ exec_body(void *arg) {
   for (i = 0; i < npre; i++)
     kh_apply(&h, &pre[i]);
   gdb = h.db;
+  if (fault_kind) {
+    vfs_fault_clear(vfs_cur);
+    vfs_cur->fault.sel_kind = fault_kind;
+    vfs_cur->fault.sel_ord = fault_ord;
+    vfs_cur->fault.err = EIO;
+    snprintf(vfs_cur->fault.sel_name, sizeof(vfs_cur->fault.sel_name), "%s", fault_name);
+  }
   sch_quiet(0);
   for (t = 0; t < nthr_fg; t++)
     tids[t] = sch_spawn(thread_body, (void *)(long)t);
   for (t = 0; t < nthr_fg; t++)
     sch_join(tids[t]);
+  fault_j_join = vfs_jlen(vfs_cur);
   /* read every backup back through an independent handle */
   for (t = 0; t < nthr_fg; t++)
     for (i = 0; i < nrecs[t]; i++)
@@ -549,6 +566,10 @@ run_one(const int *prefix, int nprefix, xres_t *x) {
     snprintf(x->err, sizeof(x->err), "execution exceeded the step limit (livelock or unbounded wait): %s", sch_describe_block());
   } else if (x->status == SCH_BADCHOICE) {
     vh_die("choice prefix diverged (nondeterminism)");
+  } else if (fault_kind) {
+    /* operations may fail under the injected fault: only the durability of acknowledged writes is judged (crash_stage) */
+    n_fault_runs++;
+    if (v->fault.fired) n_fault_fired++;
   } else if (exec_err[0]) {
     x->ok = 0;
     snprintf(x->sig, sizeof(x->sig), "exec-error");
@@ -599,7 +620,7 @@ run_one(const int *prefix, int nprefix, xres_t *x) {
     }
     fprintf(stderr, "\n");
   }
-  if (do_crash && x->ok && x->status == SCH_OK)
+  if ((do_crash || fault_kind) && x->ok && x->status == SCH_OK)
     crash_stage(v, x);
   vfs_free(v);
 }
@@ -645,9 +666,12 @@ crash_stage(vfs_t *v, xres_t *x) {
   sch_cfg_t c;
   memset(&c, 0, sizeof(c));
   c.step_max = 2000000;
+  vfs_fault_clear(v);   /* recoveries run after the fault has cleared */
   for (tt = 1; tt <= J && x->ok; tt++) {
     int nd = vfs_ndirops_before(v, tt), wm = vfs_watermark(v, tt);
     uint32_t acked = 0, must = 0;
+    if (fault_kind && tt != J && tt != fault_j_join)
+      continue;   /* fault mode: kill when the calls have returned, and after the clean close */
     n_crash_points++;
     vfs_lens_at(v, tt, W, S);
     for (t = 0; t < nthr_fg; t++)
@@ -658,6 +682,8 @@ crash_stage(vfs_t *v, xres_t *x) {
         }
     for (cls = 0; cls < 4 && x->ok; cls++) {
       /* 0 min, 1 max, 2 dir-ahead, 3 data-ahead */
+      if (fault_kind && cls != 1)
+        continue;
       int D = (cls == 0 || cls == 3) ? wm : nd, i;
       vfs_t *img;
       cjob_t j;
@@ -672,7 +698,7 @@ crash_stage(vfs_t *v, xres_t *x) {
       n_crash_recoveries++;
       if (j.open_rc != LDB_OK) {
         x->ok = 0;
-        snprintf(x->sig, sizeof(x->sig), "crash-open-failed");
+        snprintf(x->sig, sizeof(x->sig), fault_kind ? "open-fails-after-fault-cleared-concurrent" : "crash-open-failed");
         snprintf(x->err, sizeof(x->err), "crash at journal index %d of %d of this interleaved execution (image class %d): ldb_open fails with %d", tt, J, cls, j.open_rc);
       } else if (must & ~j.present) {
         x->ok = 0;
@@ -681,7 +707,7 @@ crash_stage(vfs_t *v, xres_t *x) {
                  tt, J, cls, must & ~j.present, MAXTOPS, j.present);
       } else if (cls == 1 && (acked & ~j.present)) {
         x->ok = 0;
-        snprintf(x->sig, sizeof(x->sig), "process-crash-lost-ack-concurrent");
+        snprintf(x->sig, sizeof(x->sig), fault_kind ? "acknowledged-write-lost-concurrent" : "process-crash-lost-ack-concurrent");
         snprintf(x->err, sizeof(x->err), "process crash at journal index %d of %d of this interleaved execution: acknowledged batches %x are missing after reopen (present %x)", tt, J, acked & ~j.present, j.present);
       }
       vfs_free(img);
@@ -701,7 +727,7 @@ report(const int *choices, int n, const xres_t *x) {
   if (y.ok)
     vh_die("violation did not reproduce on replay: %s", x->err);
   vb_init(&rp); vb_init(&dt);
-  vb_printf(&rp, "{\"scenario\":\"%s\",\"io\":%d,\"spurious\":%d,\"base\":%d,\"hooks\":%d,\"crash\":%d,\"choices\":[", sc->name, use_io, use_spurious, base_sched, hook_mask, do_crash);
+  vb_printf(&rp, "{\"scenario\":\"%s\",\"io\":%d,\"spurious\":%d,\"base\":%d,\"hooks\":%d,\"crash\":%d,\"fkind\":%d,\"ford\":%d,\"fname\":\"%s\",\"choices\":[", sc->name, use_io, use_spurious, base_sched, hook_mask, do_crash, fault_kind, fault_ord, fault_name);
   for (i = 0; i < n; i++) vb_printf(&rp, "%s%d", i ? "," : "", choices[i]);
   vb_printf(&rp, "]}");
   vb_printf(&dt, "scenario %s (%s), schedule of %d choices: %s", sc->name, sc->what, n, x->err);
@@ -719,7 +745,7 @@ static void
 announce(const int *choices, int n) {
   char buf[2000];
   int p = 0, i;
-  p += snprintf(buf + p, sizeof(buf) - (size_t)p, "{\"scenario\":\"%s\",\"io\":%d,\"spurious\":%d,\"base\":%d,\"hooks\":%d,\"crash\":%d,\"choices\":[", sc->name, use_io, use_spurious, base_sched, hook_mask, do_crash);
+  p += snprintf(buf + p, sizeof(buf) - (size_t)p, "{\"scenario\":\"%s\",\"io\":%d,\"spurious\":%d,\"base\":%d,\"hooks\":%d,\"crash\":%d,\"fkind\":%d,\"ford\":%d,\"fname\":\"%s\",\"choices\":[", sc->name, use_io, use_spurious, base_sched, hook_mask, do_crash, fault_kind, fault_ord, fault_name);
   for (i = 0; i < n && p < 1900; i++) p += snprintf(buf + p, sizeof(buf) - (size_t)p, "%s%d", i ? "," : "", choices[i]);
   snprintf(buf + p, sizeof(buf) - (size_t)p, "]}");
   drv_case("%s", buf);
@@ -843,8 +869,10 @@ int
 main(int argc, char **argv) {
   const char *list;
   char *copy, *save = NULL, *item;
-  int i, t;
+  int i, t, fi, fo, nfspecs = 1, fault_ords;
+  struct { int kind; char name[16]; } fspecs[12];
   drv_init(argc, argv);
+  memset(fspecs, 0, sizeof(fspecs));
   prop = drv_opt("prop", "C08");
   bound = (int)drv_opt_long("bound", 2);
   use_io = (int)drv_opt_long("io", 0);
@@ -852,6 +880,22 @@ main(int argc, char **argv) {
   hook_mask = (int)drv_opt_long("hooks", 3);
   do_crash = (int)drv_opt_long("crash", 0);
   vs_init(&crash_seen);
+  fault_ords = (int)drv_opt_long("fault-ords", 4);
+  if (drv_opt("faults", NULL)) {
+    char *fc = strdup(drv_opt("faults", "")), *fs = NULL, *it2;
+    nfspecs = 0;
+    for (it2 = strtok_r(fc, ",", &fs); it2 && nfspecs < 12; it2 = strtok_r(NULL, ",", &fs)) {
+      char *colon = strchr(it2, ':');
+      if (!colon) vh_die("bad --faults item %s", it2);
+      *colon = 0;
+      fspecs[nfspecs].kind = !strcmp(it2, "fsync") ? C_FSYNC : !strcmp(it2, "write") ? C_WRITE : !strcmp(it2, "open") ? C_OPEN :
+                             !strcmp(it2, "rename") ? C_RENAME : !strcmp(it2, "unlink") ? C_UNLINK : !strcmp(it2, "close") ? C_CLOSE : 0;
+      if (!fspecs[nfspecs].kind) vh_die("bad --faults kind %s", it2);
+      snprintf(fspecs[nfspecs].name, sizeof(fspecs[nfspecs].name), "%s", colon + 1);
+      nfspecs++;
+    }
+    free(fc);
+  }
   list = drv_opt("scenarios", "D1");
   vs_init(&outcome_set);
   vs_init(&lin_memo);
@@ -873,6 +917,9 @@ main(int argc, char **argv) {
     p = strstr(drv.replay, "\"base\":"); if (p) base_sched = atoi(p + 7);
     p = strstr(drv.replay, "\"hooks\":"); if (p) hook_mask = atoi(p + 8);
     p = strstr(drv.replay, "\"crash\":"); if (p) do_crash = atoi(p + 8);
+    p = strstr(drv.replay, "\"fkind\":"); if (p) fault_kind = atoi(p + 8);
+    p = strstr(drv.replay, "\"ford\":"); if (p) fault_ord = atoi(p + 7);
+    p = strstr(drv.replay, "\"fname\":\""); if (p) sscanf(p + 9, "%15[^\"]", fault_name);
     setup_scenario(&scenarios[i]);
     p = strstr(drv.replay, "\"choices\":[");
     if (p) {
@@ -897,7 +944,13 @@ main(int argc, char **argv) {
       if (strcmp(scenarios[i].name, item) == 0) break;
     if (i == NSCEN) vh_die("unknown scenario %s", item);
     setup_scenario(&scenarios[i]);
+    for (fi = 0; fi < nfspecs && !stop_now; fi++)
+    for (fo = 1; fo <= (fspecs[fi].kind ? fault_ords : 1) && !stop_now; fo++)
     for (base_sched = 0; base_sched < 2 && !stop_now; base_sched++) {
+      fault_kind = fspecs[fi].kind;
+      fault_ord = fo;
+      snprintf(fault_name, sizeof(fault_name), "%s", fspecs[fi].name);
+      vs_free(&crash_seen); vs_init(&crash_seen);
       /* iterative bounding: finish bound b completely before b+1 */
       for (b = 0; b <= bound && !stop_now; b++) {
         top_counter = 0;
@@ -924,9 +977,9 @@ main(int argc, char **argv) {
     char r[1200];
     snprintf(r, sizeof(r),
              "\"evaluations\":%llu,\"states\":%llu,\"transitions\":%llu,\"traces_validated_against_impl\":%llu,\"choice_points\":%llu,"
-             "\"linearization_nodes\":%llu,\"executions_with_memtable_switch\":%llu,\"executions_with_background_table\":%llu,\"crash_points\":%llu,\"crash_images\":%llu,\"crash_recoveries\":%llu,\"max_deviation_bound_completed\":%d,\"exhaustive\":%s",
+             "\"linearization_nodes\":%llu,\"executions_with_memtable_switch\":%llu,\"executions_with_background_table\":%llu,\"crash_points\":%llu,\"crash_images\":%llu,\"crash_recoveries\":%llu,\"max_deviation_bound_completed\":%d,\"fault_runs\":%llu,\"fault_runs_where_fault_fired\":%llu,\"exhaustive\":%s",
              (unsigned long long)n_exec, (unsigned long long)n_exec, (unsigned long long)n_points, (unsigned long long)n_exec,
-             (unsigned long long)n_choicepoints, (unsigned long long)n_lin_orders, (unsigned long long)n_exec_switch, (unsigned long long)n_exec_table, (unsigned long long)n_crash_points, (unsigned long long)n_crash_images, (unsigned long long)n_crash_recoveries, max_dev_done, stop_now ? "false" : "true");
+             (unsigned long long)n_choicepoints, (unsigned long long)n_lin_orders, (unsigned long long)n_exec_switch, (unsigned long long)n_exec_table, (unsigned long long)n_crash_points, (unsigned long long)n_crash_images, (unsigned long long)n_crash_recoveries, max_dev_done, (unsigned long long)n_fault_runs, (unsigned long long)n_fault_fired, stop_now ? "false" : "true");
     drv_result(r);
   }
   return 0;
